@@ -8,6 +8,15 @@ pub fn stub_format(_args: core::fmt::Arguments<'_>) -> String {
     String::new()
 }
 
+/// Stub for `Vec::with_capacity`: an empty vector without the reservation. Capacity is a hint, not observable
+/// behaviour. Parsers reserve `min(count, CAP)` elements with `count` read from the image: an allocation of
+/// symbolic size, after which every push has a symbolic `len == capacity` test and a reallocation of symbolic
+/// size behind it (measured: a 48-byte theta image > 14 GB). With the stub, vectors grow 0 -> 4 -> 8 with
+/// concrete sizes.
+pub fn stub_with_capacity<T>(_capacity: usize) -> Vec<T> {
+    Vec::new()
+}
+
 /// Uninterpreted-function abstraction of 64-bit multiplication (hand Ackermannisation).
 /// Every call returns a fresh symbolic value constrained to agree with all earlier calls on equal
 /// arguments. A proof under this stub holds for every interpretation of `wrapping_mul`.
